@@ -4,6 +4,6 @@ LEVEL = "other"
 
 def check(rep, tier):
     from contracts import vspaces, containers
-    vspaces.run_scalar(rep, tier)
-    vspaces.run_exact(rep, tier)
-    containers.run_ground(rep, tier)
+    rep.run(vspaces.run_scalar, rep, tier)
+    rep.run(vspaces.run_exact, rep, tier)
+    rep.run(containers.run_ground, rep, tier)
